@@ -12,7 +12,7 @@ import (
 func init() { Registry["C13"] = c13 }
 
 func c13(c *core.Ctx, r *core.Report) {
-	r.Explain("R13.check: on the SSA control-flow graph of taint.(*Visitor).addNext every path from entry to the enqueue either takes the UseEscapeAnalysis=false branch or calls manageEscapeContexts; every path through manageEscapeContexts ends in checkEscape, AddError, or the documented 'no escape information' warning (reported as a degradation path); checkEscape records an escape (addNewEscape) for every non-call instruction of the node with a non-nil rationale; the source node is checked in initEscapeAnalysisInfo, which Visit calls under UseEscapeAnalysis. R13.resolve: the call-site-to-callee context mapping (escapeCallsiteInfoImpl.Resolve and its closures) binds the invocation receiver (node of Call.Value to the node of a callee parameter), the arguments (Call.Args to Params) and captured objects (from Call.Value to FreeVars); bindings are recognised as calls of a func(*Node,*Node) closure whose operand slices read those access paths. R13.fail: non-empty Escapes forces the failure exit (shared exit rule). R13.locality: depends on the classification rules of C14 (cross-reference).")
+	r.Explain("R13.check: on the SSA control-flow graph of taint.(*Visitor).addNext every path from entry to the enqueue either takes the UseEscapeAnalysis=false branch or calls manageEscapeContexts; every path through manageEscapeContexts ends in checkEscape, AddError, or the documented 'no escape information' warning (reported as a degradation path); checkEscape records an escape (addNewEscape) for every non-call instruction of the node with a non-nil rationale; the source node is checked in initEscapeAnalysisInfo, which Visit calls under UseEscapeAnalysis. R13.resolve: the call-site-to-callee context mapping (escapeCallsiteInfoImpl.Resolve and its closures) binds the invocation receiver (node of Call.Value to the node of a callee parameter), the arguments (Call.Args to Params) and captured objects (from Call.Value to FreeVars); bindings are recognised as calls of a func(*Node,*Node) closure whose operand slices read those access paths. R13.converge: the convergence test EscapeGraph.Matches compares the contents of edges and status of both graphs (deep comparison or range + lookup), see R15.matches. R13.return: in the ReturnValNode arm of taint.Visitor.Visit every call site whose Out() edges are iterated is itself handed to the escape check (KNOWN-FINDING today). R13.fail: non-empty Escapes forces the failure exit (shared exit rule). R13.locality: depends on the classification rules of C14 (cross-reference).")
 	r.NotDecided("the three-analysis composition: that escape classification + taint traversal together cover every schedule-observable flow.")
 	fn := c.Func("analysis/taint", "Visitor.addNext")
 	if fn == nil {
@@ -138,4 +138,5 @@ func c13(c *core.Ctx, r *core.Report) {
 	exitRule(c, r, "R13.fail", "Escapes")
 	c13resolve(c, r)
 	c15matchesAs(c, r, "R13.converge")
+	c13return(c, r)
 }
